@@ -1,7 +1,7 @@
 (* C22 — Sorting and selection utilities are correct and stable.
    Only statements, each closed by a lemma of Proof/SortProof.v, followed by Print Assumptions. *)
 From Coq Require Import List ZArith Bool Permutation Sorted.
-From MJV Require Import Model.Sort Proof.SortProof.
+From MJV Require Import Model.Sort Proof.SortProof Proof.PartialSortProof.
 Import ListNotations.
 Open Scope Z_scope.
 
@@ -32,6 +32,29 @@ Theorem C22_insertion :
 Proof. exact insertion_sort_spec. Qed.
 Print Assumptions C22_insertion.
 
+(* mjPARTIAL_SORT, for every element type, every three-way comparison that is a total preorder
+   (sign-antisymmetric and transitive), every length n and every k:
+   for 0 < k <= n the array keeps its length, its first k entries are sorted, entries k.. are
+   untouched, and the first k entries are the k smallest of the input: together with some `rest`
+   they are a permutation of the input and nothing in `rest` is below a selected one;
+   for k <= 0 or n < k the array is unchanged. *)
+Theorem C22_partial :
+  forall (A : Type) (cmp : A -> A -> Z),
+    (forall a b, cmp a b < 0 <-> 0 < cmp b a) ->
+    (forall a b c, cmp a b <= 0 -> cmp b c <= 0 -> cmp a c <= 0) ->
+    forall (l : list A) (k : Z),
+      (0 < k <= Z.of_nat (length l) ->
+         let out := partial_sort A cmp l k in
+         let sel := firstn (Z.to_nat k) out in
+         length out = length l /\ length sel = Z.to_nat k /\
+         StronglySorted (fun a b => cmp a b <= 0) sel /\
+         skipn (Z.to_nat k) out = skipn (Z.to_nat k) l /\
+         exists rest, Permutation (sel ++ rest) l /\
+                      (forall x y, In x sel -> In y rest -> cmp x y <= 0)) /\
+      (k <= 0 \/ Z.of_nat (length l) < k -> partial_sort A cmp l k = l).
+Proof. exact partial_sort_spec. Qed.
+Print Assumptions C22_partial.
+
 (* non-vacuity: the comparison used by the correspondence meets the hypotheses, and the model
    really moves elements on an input with inversions and ties *)
 Theorem C22_kcmp_preorder :
@@ -40,6 +63,15 @@ Theorem C22_kcmp_preorder :
 Proof. exact kcmp_preorder. Qed.
 Print Assumptions C22_kcmp_preorder.
 
+Theorem C22_kcmp_anti : forall a b, kcmp a b < 0 <-> 0 < kcmp b a.
+Proof. exact kcmp_anti. Qed.
+Print Assumptions C22_kcmp_anti.
+
 Example C22_example :
   mjsort (Z * Z) kcmp [(3,0); (1,1); (3,2); (0,3); (1,4)] = [(0,3); (1,1); (1,4); (3,0); (3,2)].
+Proof. vm_compute. reflexivity. Qed.
+
+Example C22_partial_example :
+  partial_sort (Z * Z) kcmp [(3,0); (1,1); (3,2); (0,3); (1,4); (2,5)] 3 =
+    [(0,3); (1,4); (1,1); (0,3); (1,4); (2,5)].
 Proof. vm_compute. reflexivity. Qed.
